@@ -188,3 +188,31 @@ Proof.
   - apply nodup_b_sound. vm_compute. reflexivity.
   - vm_compute. reflexivity.
 Qed.
+
+(* ---------- the linear discipline cannot be dropped from x86_compile_asm_wf ---------- *)
+(* a multiplication whose TARGET is one of its operands (not linear: the bound variable is already in the context),
+   the seventh variable of the context, hence in a spill slot: the selection function emits `imul [mem], reg`,
+   which does not exist (the latent defect of mul_to_spill, Props/C14.v C14_x86_mul_to_spill_latent_refuted).
+   Every other hypothesis holds.  The pipeline never produces such a program (linearize_exact). *)
+Definition mul_alias_prog : prog :=
+  let x (i : N) : ident := ("x"%string, i) in
+  let e (i : N) := mkb (x i) Ext I64 in
+  mkp [mkd ("main"%string, 0%N) [] (Call ("f"%string, 0%N) []);
+       mkd ("f"%string, 0%N) [e 0%N; e 1%N; e 2%N; e 3%N; e 4%N; e 5%N; e 6%N]
+         (Op (x 6%N) Prod (x 6%N) (x 6%N) (Exit (x 6%N)))] [] 6%N.
+Lemma asm_wf_lin_check_needed :
+  labels_guard mul_alias_prog = true /\ calls_guard mul_alias_prog = true /\ lin_check_prog mul_alias_prog = false /\
+  plain_names mul_alias_prog = true /\ plain_types mul_alias_prog = true /\ imm_guard mul_alias_prog = true /\
+  exists cs n lc', x86_compile mul_alias_prog 0 = Backend.Ok (cs, n, lc') /\
+    asm_wf cs = Some "operand not encodable or no such instruction form"%string /\
+    In (IMULMR STACK (stack_offset 2) TEMP) cs.
+Proof.
+  repeat (split; [vm_compute; reflexivity|]).
+  eexists _, _, _. split; [vm_compute; reflexivity|]. split; [vm_compute; reflexivity|].
+  vm_compute. repeat (first [left; reflexivity|right]).
+Qed.
+
+(* the heap example of Proof/X86HSimExample.v passes the new guards *)
+Lemma hx_lin_guards :
+  labels_guard hx_lin = true /\ imm_guard hx_lin = true /\ size_guard hx_lin = true /\ calls_guard hx_lin = true.
+Proof. vm_compute. repeat split; reflexivity. Qed.
